@@ -176,13 +176,43 @@ func wrongTypeProbe(it *simdjson.Iter, typ simdjson.Type) error {
 	return nil
 }
 
-var w1Probes int
+// w1State: per-walk state of W1. The destination Objects/Arrays handed to Iter.Object(dst)/Iter.Array(dst) are
+// recycled per nesting depth; a state that is kept across walks (C15 does that for all walks of one case) makes every
+// walk use destinations that served another document - possibly on the same, reused ParsedJson - before.
+type w1State struct {
+	probes int
+	depth  int
+	objs   []*simdjson.Object
+	arrs   []*simdjson.Array
+}
 
-func walkW1(pj *simdjson.ParsedJson) ([]byte, error) {
+func (st *w1State) objDst() *simdjson.Object {
+	if st.depth >= 256 {
+		return nil
+	}
+	for len(st.objs) <= st.depth {
+		st.objs = append(st.objs, &simdjson.Object{})
+	}
+	return st.objs[st.depth]
+}
+
+func (st *w1State) arrDst() *simdjson.Array {
+	if st.depth >= 256 {
+		return nil
+	}
+	for len(st.arrs) <= st.depth {
+		st.arrs = append(st.arrs, &simdjson.Array{})
+	}
+	return st.arrs[st.depth]
+}
+
+func walkW1(pj *simdjson.ParsedJson) ([]byte, error) { return walkW1State(pj, &w1State{}) }
+
+func walkW1State(pj *simdjson.ParsedJson, st *w1State) ([]byte, error) {
 	it := pj.Iter()
 	var out []byte
 	n := 0
-	w1Probes = 0
+	st.probes, st.depth = 0, 0
 	for {
 		typ := it.Advance()
 		if typ == simdjson.TypeNone {
@@ -200,7 +230,7 @@ func walkW1(pj *simdjson.ParsedJson) ([]byte, error) {
 			out = append(out, '\n')
 		}
 		n++
-		out, err = w1Value(out, r, t2)
+		out, err = st.value(out, r, t2)
 		if err != nil {
 			return out, err
 		}
@@ -211,23 +241,25 @@ func walkW1(pj *simdjson.ParsedJson) ([]byte, error) {
 	return out, nil
 }
 
-func w1Value(out []byte, it *simdjson.Iter, typ simdjson.Type) ([]byte, error) {
+func (st *w1State) value(out []byte, it *simdjson.Iter, typ simdjson.Type) ([]byte, error) {
 	if it.Type() != typ {
 		return out, fmt.Errorf("W1: Type() = %v after Advance returned %v", it.Type(), typ)
 	}
-	if w1Probes < 48 {
+	if st.probes < 48 {
 		// the first values of every walk (bounded: the walkers run on every case of every check)
-		w1Probes++
+		st.probes++
 		if err := wrongTypeProbe(it, typ); err != nil {
 			return out, fmt.Errorf("W1: %v", err)
 		}
 	}
 	switch typ {
 	case simdjson.TypeArray:
-		arr, err := it.Array(nil)
+		arr, err := it.Array(st.arrDst())
 		if err != nil {
 			return out, fmt.Errorf("W1: Array(): %v", err)
 		}
+		st.depth++
+		defer func() { st.depth-- }()
 		out = append(out, '[')
 		ai := arr.Iter()
 		first := true
@@ -240,7 +272,7 @@ func w1Value(out []byte, it *simdjson.Iter, typ simdjson.Type) ([]byte, error) {
 				out = append(out, ',')
 			}
 			first = false
-			out, err = w1Value(out, &ai, t)
+			out, err = st.value(out, &ai, t)
 			if err != nil {
 				return out, err
 			}
@@ -251,10 +283,12 @@ func w1Value(out []byte, it *simdjson.Iter, typ simdjson.Type) ([]byte, error) {
 		}
 		return append(out, ']'), nil
 	case simdjson.TypeObject:
-		obj, err := it.Object(nil)
+		obj, err := it.Object(st.objDst())
 		if err != nil {
 			return out, fmt.Errorf("W1: Object(): %v", err)
 		}
+		st.depth++
+		defer func() { st.depth-- }()
 		out = append(out, '{')
 		var elem simdjson.Iter
 		first := true
@@ -272,7 +306,7 @@ func w1Value(out []byte, it *simdjson.Iter, typ simdjson.Type) ([]byte, error) {
 			first = false
 			out = canonStr(out, name)
 			out = append(out, '=')
-			out, err = w1Value(out, &elem, t)
+			out, err = st.value(out, &elem, t)
 			if err != nil {
 				return out, err
 			}
